@@ -1,6 +1,6 @@
 (* C07 — sleep buffer: commands for a sleeping node wait for its wake, then go once. *)
 From Coq Require Import List NArith ZArith String.
-From AMS Require Import Models GatewayFacts GatewayInv GatewaySteps GatewayTrace.
+From AMS Require Import Models Codec GatewayFacts GatewayInv GatewaySteps GatewayTrace GatewaySbuf.
 Import ListNotations.
 Local Open Scope Z_scope.
 
@@ -90,6 +90,44 @@ Theorem C07_tables :
      (Some "i_heartbeat_response", Some "i_pre_sleep_notification")]%string.
 Proof. vm_compute. reflexivity. Qed.
 
+(* "only that node's commands are released": for EVERY line, state, oracle and fault stream
+   the commands parked for nodes other than the sender are exactly as they were *)
+Theorem C07_other_nodes_parked_untouched :
+  forall bat vlt now nd line s k,
+    keys_ok (s_w s) ->
+    (forall m, decode (proto_of (s_w s)) line = DecOk m -> m_node m = nd) ->
+    node_of k <> nd ->
+    dget key_eqb (w_set (s_w (snd (listen_step bat vlt now line s)))) k = dget key_eqb (w_set (s_w s)) k.
+Proof. exact sk_listen_step. Qed.
+Print Assumptions C07_other_nodes_parked_untouched.
+
+(* over whole histories: a parked command stays parked, unchanged, through every operation
+   that is neither a wake signal of its node (as the tables of the protocol active at that
+   moment define it) nor a set command of the application for its key: lines of other nodes
+   with any faults, other lines of its own node, rejected lines, other sends, reconnects *)
+Theorem C07_parked_history :
+  forall bat vlt now k ops w,
+    Inv vlt w -> Forall op_ok ops -> kept bat vlt now k w ops ->
+    dget key_eqb (w_set (run_ops bat vlt now w ops)) k = dget key_eqb (w_set w) k.
+Proof. exact parked_history. Qed.
+Print Assumptions C07_parked_history.
+
+(* ... and at the next fault-free wake of its node it is written as parked and leaves the buffer *)
+Theorem C07_parked_released :
+  forall bat vlt now w faults line m n b k pm,
+    Inv vlt w -> decode (proto_of w) line = DecOk m -> m_cmd m = 3 ->
+    wake_body (w_proto w) (m_type m) = Some b ->
+    dget Z.eqb (w_nodes w) (m_node m) = Some n ->
+    (b = BHeartbeat20 -> exists hb, py_int (m_payload m) = Some hb) ->
+    Forall (fun x => x = false) faults ->
+    dget key_eqb (w_set w) k = Some pm -> node_of k = m_node m ->
+    let r := recv bat vlt now w faults line in
+    In {| we_line := encode pm; we_ok := true; we_msg := pm |} (snd r)
+    /\ dget key_eqb (w_set (fst (fst r))) k = None
+    /\ snd (fst r) = Yield m.
+Proof. exact parked_released. Qed.
+Print Assumptions C07_parked_released.
+
 (* non-vacuity: park two values for one key and one for another node, wake node 1 *)
 Example C07_example :
   let bat := fun _ : list N => @None Z in
@@ -104,3 +142,26 @@ Example C07_example :
   map we_line (snd r) = [lit "1;0;1;0;2;b" ++ [10%N]]
   /\ map fst (w_set (fst (fst r))) = [(2, 0, 2)].
 Proof. vm_compute. split; reflexivity. Qed.
+
+(* non-vacuity of C07_parked_history: the command parked for node 1 survives traffic of node 2
+   (its wake included), a battery report and a heartbeat response of node 1 itself (under 2.2
+   not a wake signal), a rejected line, a send for another key and a reconnect *)
+Example C07_history_example :
+  let bat := fun _ : list N => Some 50 in
+  let vlt := vlt_full (fun _ _ => None) in
+  let w0 := fst (fst (recv bat vlt 0 (init_world true) [] (lit "0;255;3;0;2;2.2"))) in
+  let w1 := w_put_node (w_put_node w0 (mk_node 1 17 (lit "2.2") [] [] 0 0 false true))
+                       (mk_node 2 17 (lit "2.2") [] [] 0 0 false true) in
+  let w2 := fst (fst (send_op w1 [] (mk_msg 1 0 1 0 2 (lit "a")) true)) in
+  let ops := [OSend (mk_msg 2 0 1 0 2 (lit "c")) true []; ORecv (lit "2;255;3;0;32;") [true];
+              ORecv (lit "1;255;3;0;0;50") []; ORecv (lit "1;255;3;0;22;7") []; ORecv (lit "garbage") [];
+              OSend (mk_msg 1 0 1 0 3 (lit "d")) true []; OReconnect; ORecv (lit "2;255;3;0;32;") []] in
+  dget key_eqb (w_set w2) (1, 0, 2) = Some (mk_msg 1 0 1 0 2 (lit "a"))
+  /\ kept bat vlt 0 (1, 0, 2) w2 ops
+  /\ map fst (w_set (run_ops bat vlt 0 w2 ops)) = [(1, 0, 2); (1, 0, 3)].
+Proof.
+  split; [vm_compute; reflexivity|split; [|vm_compute; reflexivity]].
+  cbn [kept]. repeat split.
+  all: try (intros m0 E; vm_compute in E; try discriminate E; injection E as <-; vm_compute; first [left; discriminate|right; reflexivity]).
+  all: try (intros _; vm_compute; discriminate).
+Qed.
